@@ -7,6 +7,7 @@ import LLRP.Oracle.C17
 import LLRP.Oracle.C14
 import LLRP.Oracle.C15
 import LLRP.Oracle.C12
+import LLRP.Oracle.C13
 import LLRP.Oracle.C20
 /-!
 `oracle`: line-protocol driver of the executable models (one request per line on stdin, one reply per line on
@@ -25,6 +26,7 @@ def handlers : List Handler := [
   handleC14,
   handleC15,
   handleC12,
+  handleC13,
   handleC20
 ]
 
